@@ -32,7 +32,7 @@ RenderAtom(style, a) ==
     [] a.k = "nlesc" -> "\\n"
     [] a.k = "tab" -> "\\t"
     [] a.k = "dollar" -> "\\$"
-    [] a.k = "hash" -> " #c"
+    [] a.k = "hash" -> " #c #d"          \* an inline comment that itself contains the comment marker
     [] a.k = "tsp" -> " "
 RenderAtoms(style, as) == IF as = <<>> THEN "" ELSE RenderAtom(style, Head(as)) \o RenderAtoms(style, Tail(as))
 
@@ -42,7 +42,7 @@ RenderLine(l) ==
          (CASE l.q = "none" -> RenderAtoms("none", l.val)
             [] l.q = "single" -> "'" \o RenderAtoms("single", l.val) \o "'"
             [] l.q = "double" -> "\"" \o RenderAtoms("double", l.val) \o "\"") \o
-         (IF l.cmt THEN " # trailing" ELSE "")
+         (IF l.cmt THEN " # trailing # twice" ELSE "")
     [] l.k = "bare" -> l.key
     [] l.k = "comment" -> "# a comment = 1"
     [] l.k = "blank" -> "  "
@@ -76,7 +76,7 @@ AsItem(a) ==
     [] a.k \in {"nlraw", "nlesc"} -> [k |-> "lit", c |-> NL]
     [] a.k = "tab" -> [k |-> "lit", c |-> "\t"]
     [] a.k = "dollar" -> [k |-> "lit", c |-> "$"]
-    [] a.k = "hash" -> [k |-> "lit", c |-> " #c"]
+    [] a.k = "hash" -> [k |-> "lit", c |-> " #c #d"]
     [] a.k = "tsp" -> [k |-> "lit", c |-> " "]
 Items(as) == [i \in 1..Len(as) |-> AsItem(as[i])]
 
